@@ -150,6 +150,9 @@ func (x *Explorer) shouldInline(fn *ssa.Function, binds []Val) bool {
 	if x.touches[fn] || len(binds) > 0 || fn.Parent() != nil {
 		return true
 	}
+	if x.validatorMode && fn.Signature.Recv() != nil && (fn.Name() == "Validate" || fn.Name() == "ValidateBasic") {
+		return true
+	}
 	// value helpers over decimals / coins
 	sig := fn.Signature
 	for i := 0; i < sig.Params().Len(); i++ {
